@@ -49,6 +49,18 @@ func main() {
 	chk = mc.New("C04", "exploration")
 	chk.Rule = "all element pairs of all six fields; RS: code shapes x data families x all error patterns of weight 0,1,2 (magnitude menus stated per sub-space) and full-weight position families; non-trivial = distinct (field, k, r, error positions) with at least one error actually corrected"
 	if chk.ReplayFile() != "" {
+		var hc histCase
+		if mc.LoadReplay(chk.ReplayFile(), &hc) == nil && hc.Kind == "decode-after-failure" {
+			for _, f := range fields {
+				if f.name == hc.Field {
+					l := chk.NewLocal()
+					fmt.Printf("replay %+v\n", hc)
+					failureHistory(l, f, hc.K, hc.R, hc.BadPos, hc.BadMag, &hc)
+					l.Merge()
+				}
+			}
+			chk.Finish()
+		}
 		var c rsCase
 		if mc.LoadReplay(chk.ReplayFile(), &c) == nil && c.K > 0 {
 			for _, f := range fields {
@@ -68,6 +80,8 @@ func main() {
 	runAztecShapes()
 	runEncoderHistories()
 	runDecoderHistories()
+	runDecoderFailureHistories()
+	runSpecialParity()
 	chk.Finish()
 }
 
